@@ -4,10 +4,12 @@ import (
 	"context"
 	"encoding/binary"
 	"encoding/hex"
+	"errors"
 	"fmt"
 	"io"
 	"net"
 	"net/netip"
+	"os"
 	"strings"
 	"sync"
 	"time"
@@ -349,6 +351,21 @@ type upResult struct {
 	class    string
 	detail   string
 	problems bool
+	timedOut bool
+}
+
+func isTimeoutErr(err error) (ok bool) {
+	if err == nil {
+		return false
+	}
+
+	if errors.Is(err, context.DeadlineExceeded) || errors.Is(err, os.ErrDeadlineExceeded) {
+		return true
+	}
+
+	var ne net.Error
+
+	return errors.As(err, &ne) && ne.Timeout()
 }
 
 // upOwn is what a correct reader makes of the reply on the given network.
@@ -609,6 +626,7 @@ func (e *env) upstreamNetwork(
 		own, resp, uniq, xErr, wit := probeExchange(ups, c)
 		wit["instance"] = "fresh (new UpstreamPlain, first exchange)"
 		fresh[i] = judgeExchange(own, resp, xErr, wit, true, uniq)
+		fresh[i].timedOut = isTimeoutErr(xErr)
 		e.accountUpstream(network, c, own, xErr, fresh[i].problems, "fresh", label)
 		_ = ups.Close()
 	}
@@ -642,6 +660,14 @@ func (e *env) upstreamNetwork(
 			e.accountUpstream(network, c, own, xErr, res.problems, "warmed", label)
 
 			if e.degraded("upstream-" + string(network)) {
+				continue
+			}
+
+			if isTimeoutErr(xErr) || fresh[idx].timedOut {
+				// The stub answers at once; a timeout is the machine, not an
+				// outcome to compare.
+				e.r.Bucket("ambiguous:upstream-exchange-timed-out", 1)
+
 				continue
 			}
 
